@@ -49,6 +49,14 @@ Lemma skel_SyncerSync_ok : skel_SyncerSync =
   [ForE [Call "Recv"; IfE "v3 == io.EOF" [Ret] []; IfE "v3 != nil" [Ret] []; IfE "v4 != v0.server.ClusterID()" [Ret] []; Call "syncHistoryRegion"; IfE "v3 != nil" [Ret] []; Call "bindStream"]].
 Proof. reflexivity. Qed.
 
+Lemma skel_PutConfig_ok : skel_PutConfig =
+  [Lock "v0"; DeferUnlock "v0"; Call "GetId"; IfE "v1.GetId() != v0.clusterID" [Ret] []; Call "Clone"; Call "putMetaLocked"; Ret].
+Proof. reflexivity. Qed.
+
+Lemma skel_putMetaLocked_ok : skel_putMetaLocked =
+  [IfE "v0.storage != nil" [Call "SaveMeta"; Assign "v2" ":= v0.storage.SaveMeta(v1)"; IfE "v2 != nil" [Ret] []] []; Ret].
+Proof. reflexivity. Qed.
+
 Lemma bootstrap_cmps_ok : bootstrap_cmps =
   ["clientv3.CreateRevision(v6) = 0"].
 Proof. reflexivity. Qed.
